@@ -248,19 +248,21 @@ impl<'a> Ctxt<'a> {
     }
 }
 
-fn check_poly<S: Fl>(orc: &mut Oracle, cx: &Ctxt, poly: &Poly<S>) {
+/// Returns the largest sampled distance from the curve to the polyline (`None` if the geometry was
+/// not evaluated).
+fn check_poly<S: Fl>(orc: &mut Oracle, cx: &Ctxt, poly: &Poly<S>) -> Option<f64> {
     let k = cx.kind;
     let e = poly.entry;
     let cl = |c: &str| format!("{}.flatten/{}", k, c);
     let n = poly.tos.len();
     orc.check(n >= 1, &cl("nonempty"), "generic", || format!("{}: no segment", e));
     if n == 0 {
-        return;
+        return None;
     }
     let finite = poly.tos.iter().all(|p| p.x.finite() && p.y.finite());
     orc.check(finite, &cl("finite"), "generic", || format!("{}: non-finite point", e));
     if !finite {
-        return;
+        return None;
     }
     // start / connectivity (callback forms report their own `from`s)
     if let Some(fr) = &poly.froms {
@@ -311,11 +313,11 @@ fn check_poly<S: Fl>(orc: &mut Oracle, cx: &Ctxt, poly: &Poly<S>) {
         tend = Some(ts.iter().map(|x| x.f()).collect());
     }
     if orc.failed() {
-        return;
+        return None;
     }
     if n > 20000 {
         orc.skip("more than 20000 segments: geometry not evaluated");
-        return;
+        return None;
     }
     // geometry
     let allow = cx.allow();
@@ -397,6 +399,7 @@ fn check_poly<S: Fl>(orc: &mut Oracle, cx: &Ctxt, poly: &Poly<S>) {
     if end_class != "generic" {
         orc.check(d_end == 0.0, &cl("end"), end_class, end_msg);
     }
+    Some(worst)
 }
 
 /// Exact chord-deviation certificate for a quadratic (theorem `chord_deviation`): over the
@@ -662,6 +665,50 @@ fn sharp_pred(q: &Q64, tol: f64) -> bool {
     pf * pt < 0.0 && astep > 0.75
 }
 
+/// `Scalar.max` of the model on floats (`f32::max` semantics, spelled out)
+fn smax<S: Fl>(a: S, b: S) -> S {
+    if a > b {
+        a
+    } else if b > a {
+        b
+    } else if a != a {
+        b
+    } else {
+        a
+    }
+}
+
+/// The per-input tolerance certificate `Quad.flatCert` of Model/Geom/FlattenCert.lean, evaluated in
+/// `S` with the same expression trees on lyon's emitted segments: (every chord has the
+/// perpendicular certificate, max over the chords of the squared certificate in units of tol²).
+/// Theorem `quad_flat_within_tolerance_of_certificate`: value ≤ k² ⟹ curve within k·tol.
+fn flat_cert<S: Fl>(q: &QuadraticBezierSegment<S>, tol: S, cbt: &CbT<S>) -> (bool, S) {
+    let two = S::of(2.0);
+    let sixteen = S::of(16.0);
+    let zero = S::of(0.0);
+    let ddx = (q.from.x - q.ctrl.x * two) + q.to.x;
+    let ddy = (q.from.y - q.ctrl.y * two) + q.to.y;
+    let mut all = true;
+    let mut r = zero;
+    for i in (0..cbt.tos.len()).rev() {
+        let d = cbt.ranges[i].1 - cbt.ranges[i].0;
+        let vx = cbt.tos[i].x - cbt.froms[i].x;
+        let vy = cbt.tos[i].y - cbt.froms[i].y;
+        let vv = vx * vx + vy * vy;
+        let dot = ddx * vx + ddy * vy;
+        let perp = zero < vv && (d * d * dot).abs() <= vv;
+        let c = if perp {
+            let cr = ddx * vy - ddy * vx;
+            (d * d) * (d * d) * (cr * cr) / (sixteen * (tol * tol) * vv)
+        } else {
+            (d * d) * (d * d) * (ddx * ddx + ddy * ddy) / (sixteen * (tol * tol))
+        };
+        all = perp && all;
+        r = smax(c, r);
+    }
+    (all, r)
+}
+
 // ---------------------------------------------------------------------------------------------
 // quad
 
@@ -687,15 +734,26 @@ fn run_quad<S: Fl>(q: QuadraticBezierSegment<S>, tol: S, o: &mut Out, orc: &mut 
     for t in &itt {
         o.f(*t);
     }
+    // per-input certificate (model: Quad.flatCert on the model's segments)
+    let (cert_perp, cert_sq) = flat_cert(&q, tol, &cbt);
+    o.t("cert").b(cert_perp).f(cert_sq).b(cert_sq <= S::of(1.0)).b(cert_sq <= S::of(1.21));
 
     let c = q64(&q);
     let near = overshoot_pred(&c, tol.f()) && rel_cross(&c) <= 64.0 * S::EPS;
     let cx = Ctxt { kind: "quad", curve: &c, start: c.a, end: c.b, tol: tol.f(), eps: S::EPS, collinear: collinear_pred(&q, tol.f()), near_collinear: near, overshoot: overshoot_pred(&c, tol.f()), sharp: sharp_pred(&c, tol.f()), arc_drift: false, diag: format!("lev{:?}", lev_diag(&c, tol.f())) };
-    check_poly(orc, &cx, &cbt.poly("callback_t", true));
+    let sampled = check_poly(orc, &cx, &cbt.poly("callback_t", true));
     check_poly(orc, &cx, &cb.poly("callback", false));
     check_poly(orc, &cx, &tr.poly("segment-trait", true));
     check_poly(orc, &cx, &Poly { entry: "iter", froms: None, tos: it.clone(), ranges: None, ts: if itt.len() == it.len() { Some(itt.clone()) } else { None } });
     orc.check(itt.len() == it.len(), "quad.flatten/t-range", "generic", || format!("flattened() yields {} points, flattened_t() {} parameters", it.len(), itt.len()));
+    // translation validation: the certificate is a PROVED upper bound of the distance between the
+    // curve and the polyline (theorem quad_flat_within_tolerance_of_certificate); the independent
+    // sampler may never see more (soundness cross-check of certificate, model and sampler)
+    if let Some(w) = sampled {
+        let bound = cert_sq.f().sqrt() * tol.f();
+        let ok = !(bound.is_finite()) || w <= bound * (1.0 + 1e-4) + ROUND * S::EPS * c.mag().max(1e-30);
+        orc.check(ok, "quad.flatten/certificate", "generic", || format!("sampled deviation {:e} exceeds the proved certificate bound {:e} (tol {:e})", w, bound, tol.f()));
+    }
     // the certificate dominates what sampling sees on every chord (sanity of the oracle itself
     // and of theorem chord_deviation's reading): sampled deviation ≤ certificate + rounding
     if !orc.failed() {
@@ -783,14 +841,36 @@ fn run_cubic<S: Fl>(c: CubicBezierSegment<S>, tol: S, o: &mut Out, orc: &mut Ora
     tr.put(o, true);
     o.t("it");
     put_pts(o, &it);
+    // per-input certificate (model: Cubic.flatCert): the pieces for 0.4·tol, each flattened with
+    // 0.6·tol, `flat_cert` of each, combined from the last piece backwards like the model's fold
+    let tol4 = tol * <S as lyon_geom::Scalar>::value(0.4);
+    let tol6 = tol * <S as lyon_geom::Scalar>::value(0.6);
+    let mut pieces: Vec<QuadraticBezierSegment<S>> = vec![];
+    c.for_each_quadratic_bezier_with_t(tol4, &mut |q, _| pieces.push(*q));
+    let (mut cert_perp, mut cert_sq) = (true, S::of(0.0));
+    for q in pieces.iter().rev() {
+        let mut qs = CbT::new();
+        q.for_each_flattened_with_t(tol6, &mut |s, r| qs.push(s, r));
+        let (p, v) = flat_cert(q, tol6, &qs);
+        cert_perp = p && cert_perp;
+        cert_sq = smax(v, cert_sq);
+    }
+    o.t("qcert").b(cert_perp).f(cert_sq).b(cert_sq <= S::of(1.0)).b(cert_sq <= S::of(1.21));
 
     let k = k64(&c);
     let (coll, near, over, sharp, diag) = cubic_preds(&c, tol);
     let cx = Ctxt { kind: "cubic", curve: &k, start: k.a, end: k.b, tol: tol.f(), eps: S::EPS, collinear: coll, near_collinear: near, overshoot: over, sharp, arc_drift: false, diag };
-    check_poly(orc, &cx, &cbt.poly("callback_t", true));
+    let sampled = check_poly(orc, &cx, &cbt.poly("callback_t", true));
     check_poly(orc, &cx, &cb.poly("callback", false));
     check_poly(orc, &cx, &tr.poly("segment-trait", true));
     check_poly(orc, &cx, &Poly { entry: "iter", froms: None, tos: it, ranges: None, ts: None });
+    // translation validation (theorem cubic_flat_within_tolerance_of_certificate): the curve is
+    // PROVED to be within sqrt(cert)·0.6·tol + 0.4·tol of the polyline; the sampler may not see more
+    if let Some(w) = sampled {
+        let bound = cert_sq.f().sqrt() * tol6.f() + tol4.f();
+        let ok = !(bound.is_finite()) || w <= bound * (1.0 + 1e-4) + ROUND * S::EPS * k.mag().max(1e-30);
+        orc.check(ok, "cubic.flatten/certificate", "generic", || format!("sampled deviation {:e} exceeds the proved certificate bound {:e} (tol {:e})", w, bound, tol.f()));
+    }
     // the quadratics tile [0,1] and join up
     let n = quads.len();
     orc.check(n >= 1 && quads[0].1.f() == 0.0 && quads[n - 1].2.f() == 1.0, "cubic.quadratics/t-range", "generic", || format!("{} quadratics", n));
@@ -882,6 +962,21 @@ fn run_arc<S: Fl>(a: Arc<S>, tol: S, o: &mut Out, orc: &mut Oracle) {
     let drift_pred = ra != rb && drift >= 1.08;
     let diag = format!("radii ({:e},{:e}) largest step {:.3} rad, radius drift bound {:.3}", ra, rb, theta, drift);
     let cx = Ctxt { kind: "arc", curve: &c, start: p2(a.from()), end: p2(a.to()), tol: tol.f(), eps: S::EPS, collinear: false, near_collinear: false, overshoot: false, sharp: false, arc_drift: drift_pred, diag };
+    // OBSERVATION (not a finding): `flattening_step` returns 1 when min(2·acos((R−tol)/R)/|sweep|, 1)
+    // < S::EPSILON — the whole arc becomes one segment (theorem arc_epsilon_guard_single_segment; the
+    // case hypothesis `heps` of arc_flat_within_tolerance excludes). Evaluated on the input exactly as
+    // the code does. Skipped only while the tolerance is below the resolution the oracle itself
+    // grants (rounding of the angle amplified by the radius); otherwise the normal oracle decides.
+    {
+        let r = S::max(a.radii.x.abs(), a.radii.y.abs());
+        let ang = S::TWO * S::acos((r - tol) / r);
+        let res = S::min(ang / a.sweep_angle.radians.abs(), S::ONE);
+        let below_resolution = tol.f() <= ROUND * S::EPS * c.mag().max(1e-30);
+        if res < S::EPSILON && a.sweep_angle.radians.f() != 0.0 && below_resolution {
+            orc.skip("observation: EPSILON guard of Arc::flattening_step fired (tolerance below the coordinate/angle resolution): the arc is emitted as one segment");
+            return;
+        }
+    }
     check_poly(orc, &cx, &cbt.poly("callback_t", true));
     check_poly(orc, &cx, &cb.poly("callback", false));
     check_poly(orc, &cx, &tr.poly("segment-trait", true));
@@ -1161,6 +1256,32 @@ fn witness_cases_3(ctx: &mut Ctx) {
     });
 }
 
+/// Directed inputs for the `EPSILON` guard of `Arc::flattening_step` (appended after the random
+/// stream so that existing case ids keep their meaning): the model must agree bit for bit (one
+/// segment), the oracle records the observation.
+fn guard_cases(ctx: &mut Ctx) {
+    let fixed: [(f32, f32, f32); 2] = [(1.0, 7.0, 6e-8), (1000.0, 100.0, 0.01)];
+    for (r, sweep, tol) in fixed {
+        ctx.case("arc:32", move |_| {
+            let a = Arc {
+                center: point(0.0f32, 0.0),
+                radii: vector(r, r),
+                start_angle: Angle::radians(0.0),
+                sweep_angle: Angle::radians(sweep),
+                x_rotation: Angle::radians(0.0),
+            };
+            let mut args = Out::new();
+            args.p(a.center).v(a.radii).f(a.start_angle.radians).f(a.sweep_angle.radians).f(a.x_rotation.radians).f(tol);
+            (args, "arc 32 directed epsilon-guard".to_string(), move || {
+                let mut o = Out::new();
+                let mut orc = Oracle::new();
+                run_arc(a, tol, &mut o, &mut orc);
+                CaseOut { imp: o, orcl: orc.verdict }
+            })
+        });
+    }
+}
+
 fn main() {
     let mut ctx = Ctx::from_args("C09");
     witness_cases(&mut ctx);
@@ -1177,6 +1298,7 @@ fn main() {
         path_case(&mut ctx, false);
         path_case(&mut ctx, true);
     }
+    guard_cases(&mut ctx);
     ctx.finish();
 }
 
